@@ -42,7 +42,8 @@ ASSUMPTIONS = ["always_seqnum_assign = false (with the option on fix8 renumbers 
                "sequence numbers stay far below 2^32"]
 RULE = ("histories: logon, k <= 8 sends (single messages and batches) mixing application and admin messages (so that the store has holes; file, memory and "
         "no persister; initiator and acceptor; sometimes a restart on the file persister), then a ResendRequest [B,E], a new "
-        "message, sometimes a second request and another message; a class of multi-request histories (a bounded request "
+        "message, sometimes a second request and another message; long runs of unstored numbers (62..66, 127..129, 255..257; by starting at send number ss, and by 63/64/65 "
+        "heartbeats) in front of a stored message with Begin at the start of the run; a class of multi-request histories (a bounded request "
         "ending below the highest stored number, 1..3 further new messages, then a wider later request; file/mem); 3 of 7 requests arrive in a state other than continuous: with "
         "their own MsgSeqNum ahead of the expected one (our ResendRequest goes first), while a TestRequest of ours is pending "
         "(after a TICK), or while our ResendRequest is pending.  thorough: ALL subsets of stored numbers x ALL ranges "
@@ -99,11 +100,11 @@ def run_impl(built, cases, tier):
 
 
 # ------------------------------------------------------------------------------------ histories
-def history(rng, role, persist, pattern, reqs, asa=0, restart_at=None, step_ns=None):
+def history(rng, role, persist, pattern, reqs, asa=0, restart_at=None, step_ns=None, ss=None):
     """pattern: string over a (application message), h (heartbeat), t (test request), r (reject),
     B (a batch of 2..3 messages, application and heartbeat mixed: 2..3 numbers, some of them stored);
     reqs: list of (B, E) -- each followed by a new application message."""
-    h = S.Hist(rng, role, persist, asa=asa)
+    h = S.Hist(rng, role, persist, asa=asa, ss=ss)
     h.logon_in()
     for i, c in enumerate(pattern):
         if restart_at is not None and i == restart_at:
@@ -219,6 +220,28 @@ def gen_cases(rng, tier):
         if rng.random() < 0.3:
             reqs.append((1, 0, "plain", 1))
         cs.append(Case(history(rng, rng.choice("IA"), per, pat, reqs), "later-wider-%s" % per))
+    # 2c. LONG runs of numbers without a stored message in front of a stored one (the persisters look for the first
+    #     record at or after Begin: find_nearest_highest_seqnum): run lengths around 64, 128, 256 and a few others,
+    #     Begin exactly at the start of the run.  (i) cheap: the session starts at send number ss, so the Logon
+    #     carries ss and the first application message ss+1; (ii) a real run of K heartbeats behind stored messages.
+    runs = [1, 31, 62, 63, 64, 65, 66, 127, 128, 129, 255, 256, 257]
+    for per in ("file", "mem"):
+        for d in runs:
+            for pat in (["a", "aha", "ah"] if (thorough or d in (63, 64, 65)) else ["a", "aha"]):
+                ss = 300 + rng.randrange(50)
+                first = ss + 1                          # the first stored number
+                b = first - d
+                e = rng.choice([0, 0, first, first + 5])
+                cs.append(Case(history(rng, rng.choice("IA"), per, pat, [(b, e)], ss=ss, step_ns=10**6),
+                               "long-run-ss-%s" % per))
+    for per in ("file", "mem"):
+        for k in (63, 64, 65):
+            for lead in ("a", ""):
+                # lead, K heartbeats, one application message (+ another): Begin = first heartbeat of the run
+                pat = lead + "h" * k + rng.choice(["a", "aa"])
+                b = 2 + len(lead)
+                cs.append(Case(history(rng, "I", per, pat, [(b, rng.choice([0, b + k]))], step_ns=10**6),
+                               "long-run-hb-%s" % per))
     # 3. always_seqnum_assign on: tied only (ranges up to the latest: no feedback through the re-stored messages)
     for _ in range(150 if thorough else 30):
         k = rng.randint(1, 6)
